@@ -5,7 +5,7 @@
 //! `differ:<key of the first differing line>`.
 //!
 //! Scenario kinds (3 fields: kind, a, b):
-//!   layers  a = layer names (hex, `,`)   b = history of struct- and trait-API layer operations (`;`), replayed by
+//!   layers  a = layer names (hex, `,`)   b = history of struct- and trait-API layer operations and hand-written layer files (`;`), replayed by
 //!           `c20 child-layers a b` (real `cached_layer` / `uncached_layer` / `LayerRef::write_*` / `handle_layer`)
 //!   bp      a = detect | build            b = items (`;`) steering this binary run as a buildpack through the real
 //!           `libcnb_runtime` (it is a `detect`/`build` executable when invoked under those names)
@@ -151,6 +151,7 @@ impl Ref {
     fn write_env(&self, e: &LayerEnv) -> R<()> { match self { Ref::C(r) => r.write_env(e), Ref::U(r) => r.write_env(e) } }
     fn write_sboms(&self, s: &[Sbom]) -> R<()> { match self { Ref::C(r) => r.write_sboms(s), Ref::U(r) => r.write_sboms(s) } }
     fn write_exec_d(&self, p: Vec<(String, PathBuf)>) -> R<()> { match self { Ref::C(r) => r.write_exec_d_programs(p), Ref::U(r) => r.write_exec_d_programs(p) } }
+    fn read_env(&self) -> R<LayerEnv> { match self { Ref::C(r) => r.read_env(), Ref::U(r) => r.read_env() } }
 }
 
 fn state_str<A: std::fmt::Display, B: std::fmt::Display>(s: &LayerState<A, B>) -> String {
@@ -223,6 +224,22 @@ impl Layer for DataLayer {
     fn migrate_incompatible_metadata(&mut self, _c: &BuildContext<Dbp>, _m: &GenericMetadata) -> Result<MetadataMigration<GenericMetadata>, TbError> { self.log.borrow_mut().push("migrate".into()); Ok(MetadataMigration::RecreateLayer) }
 }
 
+/// trait-API layer with typed metadata `V`: a stored table without `v` is incompatible and is migrated by
+/// `MetadataMigration::ReplaceMetadata` (which rewrites the layer, env included, from what was read back)
+struct VLayer { types: LayerTypes, strategy: String, log: std::rc::Rc<RefCell<Vec<String>>> }
+impl Layer for VLayer {
+    type Buildpack = Dbp;
+    type Metadata = V;
+    fn types(&self) -> LayerTypes { self.types }
+    fn create(&mut self, _c: &BuildContext<Dbp>, _p: &Path) -> Result<LayerResult<V>, TbError> { self.log.borrow_mut().push("create".into()); LayerResultBuilder::new(V { v: 1 }).build() }
+    fn existing_layer_strategy(&mut self, _c: &BuildContext<Dbp>, d: &LayerData<V>) -> Result<ExistingLayerStrategy, TbError> {
+        self.log.borrow_mut().push(format!("strategy:v{}", d.content_metadata.metadata.v));
+        match self.strategy.as_str() { "k" => Ok(ExistingLayerStrategy::Keep), "u" => Ok(ExistingLayerStrategy::Update), "r" => Ok(ExistingLayerStrategy::Recreate), _ => Err(TbError("strategy".into())) }
+    }
+    fn update(&mut self, _c: &BuildContext<Dbp>, _d: &LayerData<V>) -> Result<LayerResult<V>, TbError> { self.log.borrow_mut().push("update".into()); LayerResultBuilder::new(V { v: 2 }).build() }
+    fn migrate_incompatible_metadata(&mut self, _c: &BuildContext<Dbp>, m: &GenericMetadata) -> Result<MetadataMigration<V>, TbError> { self.log.borrow_mut().push(format!("migrate:{}", show_meta(m))); Ok(MetadataMigration::ReplaceMetadata(V { v: 9 })) }
+}
+
 fn show_env_probe(le: &LayerEnv) -> String {
     let mut parts = vec![];
     for (tag, sc) in [("B", Scope::Build), ("L", Scope::Launch), ("Pweb", Scope::Process("web".into())), ("Pcron", Scope::Process("cron".into()))] {
@@ -268,6 +285,17 @@ fn replay(ctx: &BuildContext<Dbp>, names: &[String], ops: &[&str], srcs: &Path, 
                 match r { Ok(d) => format!("ok:{}:{}:{}", show_meta(&d.content_metadata.metadata), d.content_metadata.types.map_or("~".into(), |t| format!("{}{}{}", u8::from(t.launch), u8::from(t.build), u8::from(t.cache))), show_env_probe(&d.env).replace(&hex(&root_bytes), "24524f4f54")), Err(e) => format!("err:{}", err_kind(&e)) }
             }
             "R" => { restore(&layers, names); refs.clear(); "ok".into() }
+            // a file put into the layer by hand (or by a previous build's own code): `<relative path hex>=<content hex>`, parents created
+            "W" => { let (n, h) = p[2].split_once('=').unwrap(); let fp = layers.join(&name).join(os(&unhex(n).unwrap()));
+                match fp.parent().map(std::fs::create_dir_all).unwrap_or(Ok(())).and_then(|()| std::fs::write(&fp, unhex(h).unwrap())) { Ok(()) => "ok".into(), Err(_) => "err:io".into() } }
+            "Y" => {
+                let t = p[2].as_bytes();
+                let lg = std::rc::Rc::new(RefCell::new(vec![]));
+                let layer = VLayer { types: LayerTypes { launch: t[0] == b'1', build: t[1] == b'1', cache: t[2] == b'1' }, strategy: p[3].into(), log: lg.clone() };
+                let r = ctx.handle_layer(lname.clone().expect("layer name"), layer);
+                log.borrow_mut().extend(lg.borrow().iter().cloned());
+                match r { Ok(d) => format!("ok:v{}:{}", d.content_metadata.metadata.v, show_env_probe(&d.env).replace(&hex(&root_bytes), "24524f4f54")), Err(e) => format!("err:{}", err_kind(&e)) }
+            }
             "B" => { std::fs::write(layers.join(format!("{name}.toml")), "this is = not [toml").unwrap(); "ok".into() }
             w => match refs.get(&name) {
                 None => "noref".into(),
@@ -276,6 +304,8 @@ fn replay(ctx: &BuildContext<Dbp>, names: &[String], ops: &[&str], srcs: &Path, 
                         "M" => r.write_metadata(parse_meta(p[2])).map_err(|e| err_kind(&e).to_string()),
                         "E" => r.write_env(&parse_env(p[2])).map_err(|e| err_kind(&e).to_string()),
                         "S" => r.write_sboms(&parse_sboms(p[2])).map_err(|e| err_kind(&e).to_string()),
+                        // LayerRef::read_env followed by write_env of what was read
+                        "V" => match r.read_env() { Ok(le) => { log.borrow_mut().push(show_env_probe(&le).replace(&hex(&root_bytes), "24524f4f54")); r.write_env(&le).map_err(|e| err_kind(&e).to_string()) } Err(e) => Err(err_kind(&e).to_string()) },
                         "X" => r.write_exec_d(parse_progs(p[2], srcs, &format!("x{k}"))).map_err(|e| err_kind(&e).to_string()),
                         "F" => { let (n, h) = p[2].split_once('=').unwrap(); let dir = r.path(); let fp = dir.join(os(&unhex(n).unwrap()));
                             if !dir.is_dir() { Err("missingLayer".into()) } else if fp.is_dir() { Err("io".into()) } else { std::fs::write(fp, unhex(h).unwrap()).map_err(|_| "io".to_string()) } }
@@ -436,7 +466,13 @@ fn run_bp(which: &Path, phase: &str, envs: &[(&str, String)], pre: Option<&str>,
 fn line_key(l: &str) -> String { l.split(' ').take(3).collect::<Vec<_>>().join("_").chars().filter(|c| !c.is_whitespace()).take(120).collect() }
 
 fn compare(reference: &[String], other: &[String], run: usize) -> Option<String> {
-    for (x, y) in reference.iter().zip(other.iter()) { if x != y { let k = if line_key(x) == line_key(y) { line_key(x) } else { format!("{}|{}", line_key(x), line_key(y)) }; return Some(format!("differ:run{run}:{k}")); } }
+    for (i, (x, y)) in reference.iter().zip(other.iter()).enumerate() { if x != y {
+        let k = if line_key(x) == line_key(y) { line_key(x) } else { format!("{}|{}", line_key(x), line_key(y)) };
+        // a differing result line (it carries the env that was read back): name the first differing file as well
+        let is_entry = |l: &str| matches!(l.split(' ').nth(1), Some("F" | "D" | "L"));
+        let file = if is_entry(x) { None } else { reference.iter().zip(other.iter()).skip(i + 1).find(|(a, b)| a != b && (is_entry(a) || is_entry(b))).map(|(a, b)| if is_entry(a) { line_key(a) } else { line_key(b) }) };
+        return Some(match file { Some(f) => format!("differ:run{run}:{k}+{f}"), None => format!("differ:run{run}:{k}") });
+    } }
     if reference.len() != other.len() { let extra = if reference.len() > other.len() { &reference[other.len()] } else { &other[reference.len()] }; return Some(format!("differ:run{run}:missing-line:{}", line_key(extra))); }
     None
 }
@@ -557,7 +593,40 @@ fn generate(tier: &str, seed: u64, emit: &mut dyn FnMut(Case)) {
         emit(layer_case(vec![t1, "R".into(), t2.clone(), "R".into(), t2], "trait"));
     } } }
 
-    // 3. sampled histories, struct and trait operations mixed
+    // 2b. read-back of an env directory in which two files designate the same (behaviour, variable): `VAR` (suffix-less =
+    //     override) and `VAR.override` with different contents, in env / env.build / env.launch / env.launch/<process>; the
+    //     layer env is then read and written again (LayerRef::read_env + write_env, trait-API Keep, MetadataMigration::
+    //     ReplaceMetadata followed by Keep). Which content wins follows the order in which the reader visits the directory.
+    let n_dup = if thorough { 160 } else if search { 60 } else { 24 };
+    for idx in 0..n_dup {
+        let mut r = Rng::for_case(seed ^ 0xD0B, idx);
+        let mut ops = vec![format!("C.{a}.11.G.d1.k2")];
+        let mut dirs: Vec<String> = vec!["env".into(), "env.build".into(), "env.launch".into(), "env.launch/web".into(), "env.launch/cron".into()];
+        r.shuffle(&mut dirs);
+        let ndirs = 1 + (idx as usize % 3) + r.below(2) as usize;
+        for d in dirs.iter().take(ndirs) {
+            let mut vars: Vec<&str> = vec!["PATH", "FOO", "BAR_BAZ", "Q.x", "LD_LIBRARY_PATH", "ZED"]; r.shuffle(&mut vars);
+            let nv = 2 + r.below(3) as usize;
+            let mut files: Vec<String> = vec![];
+            for v in vars.iter().take(nv) {
+                files.push(format!("W.{a}.{}={}", hex(format!("{d}/{v}").as_bytes()), hex(format!("plain-{v}").as_bytes())));
+                files.push(format!("W.{a}.{}={}", hex(format!("{d}/{v}.override").as_bytes()), hex(format!("suffixed-{v}").as_bytes())));
+                if r.chance(1, 3) { files.push(format!("W.{a}.{}={}", hex(format!("{d}/{v}.append").as_bytes()), hex(b"x"))); }
+            }
+            r.shuffle(&mut files);
+            ops.append(&mut files);
+        }
+        ops.push(format!("M.{a}.w=3_zeta=1"));
+        if r.chance(1, 2) { ops.push("R".into()); ops.push(format!("C.{a}.11.G.d1.k2")); }
+        match idx % 3 {
+            0 => ops.push(format!("V.{a}")),
+            1 => ops.push(format!("T.{a}.111.k.~.-.-.-")),
+            _ => ops.push(format!("Y.{a}.111.k")),
+        }
+        let k = 3; // several variables whose winner depends on the visiting order
+        emit(mk("layers", names3.clone(), join(";", &ops), "dupenv", k, true));
+    }
+
     let n_layers = if thorough { 6600 } else if search { 400 } else { 300 };
     let maxlen = if thorough { 30 } else { 14 };
     let names = [a.as_str(), bee.as_str(), c3.as_str()];
